@@ -26,6 +26,10 @@ type C06StackScript struct {
 	SlowMs [2]int `json:"slowMs"` // virtual ms the receiving application of side i needs per datagram
 	Cap    int    `json:"cap"`    // pipe buffer per direction
 	Pad    int    `json:"pad"`    // payload padding bytes
+	// the receiving application of side i stops for StallMs[i] virtual ms when it gets its StallAt[i]-th
+	// datagram (1-based; 0 = never): seconds of back pressure, still below the 10 s write deadline
+	StallAt [2]int `json:"stallAt,omitempty"`
+	StallMs [2]int `json:"stallMs,omitempty"`
 }
 
 type stackProv struct {
@@ -36,6 +40,8 @@ type stackProv struct {
 	states []model.ShipMessageExchangeState
 	closed int
 	slow   time.Duration
+	stallAt int
+	stall   time.Duration
 }
 
 func (p *stackProv) IsRemoteServiceForSKIPaired(string) bool { return true }
@@ -61,9 +67,13 @@ func (p *stackProv) SetupRemoteDevice(_ string, w api.ShipConnectionDataWriterIn
 func (p *stackProv) HandleShipPayloadMessage(m []byte) {
 	p.mu.Lock()
 	p.got = append(p.got, string(m))
+	n := len(p.got)
 	p.mu.Unlock()
 	if p.slow > 0 {
 		time.Sleep(p.slow)
+	}
+	if p.stallAt > 0 && n == p.stallAt {
+		time.Sleep(p.stall)
 	}
 }
 
@@ -82,6 +92,9 @@ func runC06Stack(sc C06StackScript) *c06StackResult {
 		return res
 	}
 	prov := [2]*stackProv{{side: 0, slow: time.Duration(sc.SlowMs[0]) * time.Millisecond}, {side: 1, slow: time.Duration(sc.SlowMs[1]) * time.Millisecond}}
+	for s := 0; s < 2; s++ {
+		prov[s].stallAt, prov[s].stall = sc.StallAt[s], time.Duration(sc.StallMs[s])*time.Millisecond
+	}
 	wsA := ws.NewWebsocketConnection(ca, "ski-of-server")
 	wsB := ws.NewWebsocketConnection(cb, "ski-of-client")
 	shipB := ship.NewConnectionHandler(prov[1], wsB, ship.ShipRoleServer, "server-id", "ski-of-client", "")
@@ -190,6 +203,14 @@ func TestC06Stack(t *testing.T) {
 			Cap:    rapid.SampledFrom([]int{128, 1024, 65536}).Draw(rt, "cap"),
 			Pad:    rapid.SampledFrom([]int{0, 10, 300}).Draw(rt, "pad"),
 		}
+		for s := 0; s < 2; s++ {
+			// a receiver that stops for seconds in the middle of the stream (only with otherwise quick
+			// receivers, so that the whole exchange stays below the ping period)
+			if sc.SlowMs[s] <= 20 && sc.Send[1-s] > 4 && rapid.IntRange(0, 3).Draw(rt, "stallP") == 0 {
+				sc.StallAt[s] = rapid.IntRange(1, sc.Send[1-s]-1).Draw(rt, "stallAt")
+				sc.StallMs[s] = rapid.SampledFrom([]int{2500, 4000, 8000}).Draw(rt, "stallMs")
+			}
+		}
 		key, msg := judgeC06Stack(t, sc)
 		if key == "inconclusive" {
 			st.AddInconclusive()
@@ -199,7 +220,7 @@ func TestC06Stack(t *testing.T) {
 			st.AddForeign("handshake-not-completed-over-real-ws")
 			return
 		}
-		st.Case(sc, (sc.Send[0] > 40 && sc.SlowMs[1] > 0) || (sc.Send[1] > 40 && sc.SlowMs[0] > 0), "full-stack")
+		st.Case(sc, (sc.Send[0] > 40 && sc.SlowMs[1] > 0) || (sc.Send[1] > 40 && sc.SlowMs[0] > 0), "full-stack", "receiver-stalls-for-seconds:"+b2s(sc.StallAt[0]+sc.StallAt[1] > 0))
 		if key != "" {
 			st.Fail(key, msg, sc)
 			rt.Fatalf("%s: %s", key, msg)
@@ -217,4 +238,11 @@ func replayC06Stack(t *testing.T, raw json.RawMessage) (string, string) {
 		return "", ""
 	}
 	return k, m
+}
+
+func b2s(b bool) string {
+	if b {
+		return "yes"
+	}
+	return "no"
 }
